@@ -883,3 +883,83 @@ def extra_checks(tier, seed):
                   z3.Concat(z3.Extract(t, 0, k), z3.Unit(t[k])) == z3.Extract(t, 0, k + 1), 20000),
             solve("C13/lemma/seq-shift4", [], _shift4(t, k), 20000),
             _bounded_parse(tier)]
+
+
+# ------------------------------------------------------------------------------------------ replay on the real code
+_NEGOTIATION_HARNESS = r'''
+import json
+import txaio; txaio.use_asyncio()
+from autobahn.wamp.websocket import WampWebSocketServerProtocol, WampWebSocketClientProtocol
+from autobahn.websocket.types import ConnectionDeny
+
+class Ser:
+    def __init__(self, sid): self.SERIALIZER_ID = sid
+class Fac:
+    def __init__(self, ids):
+        self._serializers = {i: Ser(i) for i in ids}
+        self.protocols = ["wamp.2.%s" % i for i in ids]
+class Req:
+    def __init__(self, protocols): self.protocols = protocols
+class Resp:
+    def __init__(self, protocol): self.protocol = protocol
+
+def reference(protocols, ids):
+    """first offered subprotocol, in the client's order, of the form wamp.2.<known serializer id>"""
+    for p in protocols:
+        parts = p.split(".")
+        if len(parts) >= 3 and parts[0] == "wamp" and parts[1] == "2" and ".".join(parts[2:]) in ids:
+            return p, ".".join(parts[2:])
+    return None, None
+
+bad = []
+IDS = ["json", "msgpack"]
+OFFERS = [["wamp.2.json"], ["wamp.2.msgpack", "wamp.2.json"], ["wamp.2.json", "wamp.2.msgpack"], ["wamp.2.cbor", "wamp.2.msgpack"],
+          ["wamp.3.json"], ["wamp.3.json", "wamp.2.msgpack"], ["wamp.1.json", "wamp.2.json"], ["wamp.2.cbor"], [], ["chat"],
+          ["chat", "wamp.2.json"], ["wamp.2.msgpack", "wamp.3.json"], ["wamp.10.json"], ["wamp.2.json", "wamp.2.json"]]
+for strict in (True, False):
+    for offer in OFFERS:
+        p = WampWebSocketServerProtocol(); p.factory = Fac(IDS); p.STRICT_PROTOCOL_NEGOTIATION = strict; p._serializer = None
+        want, want_ser = reference(offer, IDS)
+        try:
+            got = p.onConnect(Req(list(offer)))[0]
+        except ConnectionDeny:
+            if want is not None or not strict:
+                bad.append({"side": "server", "offer": offer, "strict": strict, "problem": "denied, expected %r" % (want,)})
+            continue
+        except Exception as e:
+            bad.append({"side": "server", "offer": offer, "strict": strict, "problem": "escaped %s" % type(e).__name__}); continue
+        if got != want:
+            bad.append({"side": "server", "offer": offer, "strict": strict, "problem": "selected %r, expected %r" % (got, want)})
+        elif p._serializer is None or p._serializer.SERIALIZER_ID != (want_ser or "json"):
+            bad.append({"side": "server", "offer": offer, "strict": strict,
+                        "problem": "serializer %r for subprotocol %r" % (getattr(p._serializer, "SERIALIZER_ID", None), got)})
+for answer in ["wamp.2.json", "wamp.2.msgpack", "wamp.2.cbor", "wamp.3.json", None, "chat"]:
+    c = WampWebSocketClientProtocol(); c.factory = Fac(IDS); c._serializer = None
+    ok = answer in c.factory.protocols
+    try:
+        c.onConnect(Resp(answer))
+    except Exception as e:
+        if ok:
+            bad.append({"side": "client", "answer": answer, "problem": "rejected a requested subprotocol (%s)" % type(e).__name__})
+        continue
+    if not ok:
+        bad.append({"side": "client", "answer": answer, "problem": "accepted a subprotocol that was not requested"})
+    elif c._serializer.SERIALIZER_ID != answer.split(".")[2]:
+        bad.append({"side": "client", "answer": answer, "problem": "serializer %r" % c._serializer.SERIALIZER_ID})
+print(json.dumps({"bad": bad}))
+'''
+
+
+def replay(o):
+    """only the WebSocket subprotocol negotiation has a harness: offers in both orders, unknown versions / serializers,
+    strict and lenient mode, against a reference written from the property (finds real failing inputs; proves nothing)"""
+    from pyvc import replaylib as R
+    unit = o.get("unit") or o.get("name", "")
+    if "onConnect" not in unit or "WampWebSocket" not in unit:
+        return {"reproduced": False, "detail": "no replay harness for this unit"}
+    out = R.run_py(_NEGOTIATION_HARNESS, timeout=60)
+    side = "server" if "Server" in unit else "client"
+    hits = [b for b in (out.get("bad") or []) if b.get("side") == side] if isinstance(out, dict) else None
+    return {"reproduced": bool(hits), "cases": (hits or [])[:3], "observed": None if hits else out,
+            "detail": "subprotocol offers / answers (order, unknown version, unknown serializer, strict and lenient) on the real "
+                      "WampWebSocket protocol classes against a reference written from the property"}
